@@ -165,6 +165,7 @@ void PeriodicExportingMetricReader::DoBackgroundWork()
 bool PeriodicExportingMetricReader::CollectAndExportOnce()
 {
   std::atomic<bool> cancel_export_for_timeout{false};
+  std::atomic<bool> export_invoked{false};
 
   std::uint64_t notify_force_flush = force_flush_pending_sequence_.load(std::memory_order_acquire);
   std::unique_ptr<std::thread> task_thread;
@@ -177,7 +178,8 @@ bool PeriodicExportingMetricReader::CollectAndExportOnce()
     auto receiver = sender.get_future();
 
     task_thread.reset(
-        new std::thread([this, &cancel_export_for_timeout, sender = std::move(sender)] {
+        new std::thread([this, &cancel_export_for_timeout, &export_invoked,
+                         sender = std::move(sender)] {
 #ifdef ENABLE_THREAD_INSTRUMENTATION_PREVIEW
           if (collect_thread_instrumentation_ != nullptr)
           {
@@ -186,7 +188,8 @@ bool PeriodicExportingMetricReader::CollectAndExportOnce()
           }
 #endif /* ENABLE_THREAD_INSTRUMENTATION_PREVIEW */
 
-          this->Collect([this, &cancel_export_for_timeout](ResourceMetrics &metric_data) {
+          this->Collect([this, &cancel_export_for_timeout,
+                         &export_invoked](ResourceMetrics &metric_data) {
             if (cancel_export_for_timeout.load(std::memory_order_acquire))
             {
               OTEL_INTERNAL_LOG_ERROR(
@@ -195,6 +198,7 @@ bool PeriodicExportingMetricReader::CollectAndExportOnce()
               return false;
             }
             this->exporter_->Export(metric_data);
+            export_invoked.store(true, std::memory_order_release);
             return true;
           });
 
@@ -238,6 +242,13 @@ bool PeriodicExportingMetricReader::CollectAndExportOnce()
   if (task_thread && task_thread->joinable())
   {
     task_thread->join();
+  }
+
+  // A cycle whose export was cancelled by the timeout has flushed nothing: leave pending
+  // ForceFlush requests pending, they are served by the next cycle.
+  if (!export_invoked.load(std::memory_order_acquire))
+  {
+    return false;
   }
 
   std::uint64_t notified_sequence = force_flush_notified_sequence_.load(std::memory_order_acquire);
